@@ -251,6 +251,11 @@ def check(run):
     run.check(okc, 'R10', 'accept-queue-dispatch', A + '::check_accept_queue', caq.loc(), 'the queued connection is handed out only under extra conditions: ' + str(extra if not okc and pops else ''),
               'handed out whenever a handler is pending and the queue is non-empty')
 
+    run.clause('entry conditions of progress: the window admits a segment whenever the segment size changes; a moved socket keeps its stream position (shared with C20 / C12)')
+    import p20, p12
+    p20.cwnd_follows_mss(run)
+    p12.move_ctor_rules(run, ((T, 'tcp'),))
+
     # ------------------------------------------------------------ R9 in-flight accounting
     run.clause('R9 every end of flight (ACK, reported drop, close) subtracts from m_bytes_in_flight and erases the per-segment size; flight begins only in send_packet')
     engines.r2_writer_table(run, T + '::m_bytes_in_flight', {
